@@ -583,7 +583,95 @@ func one(k *run.K) {
 	tolerance(k, base)
 }
 
+// tolMatching: IgnoreOrder + ToleranceXY is a bipartite matching problem (the
+// tolerance relation is not transitive, so a greedy assignment is not enough):
+// expected = some bijection pairs every member with one within the tolerance.
+func tolMatching(k *run.K) {
+	r := k.Rng
+	n := r.Range(2, 5)
+	tol := float64(r.Range(1, 2)) + 0.25
+	type pt struct{ x, y float64 }
+	mk := func() []pt {
+		ps := make([]pt, n)
+		for i := range ps {
+			ps[i] = pt{float64(r.Range(0, 8)) / 2, float64(r.Range(0, 2)) / 2}
+		}
+		return ps
+	}
+	a, b := mk(), mk()
+	if r.Bool() { // make b a perturbed permutation of a so that matchings usually exist
+		p := r.Perm(n)
+		for i := range b {
+			b[i] = pt{a[p[i]].x + float64(r.Range(-2, 2))/2, a[p[i]].y}
+		}
+	}
+	within := func(p, q pt) bool { dx, dy := p.x-q.x, p.y-q.y; return dx*dx+dy*dy <= tol*tol }
+	// brute force over all bijections
+	want := false
+	perm := make([]int, n)
+	for i := range perm {
+		perm[i] = i
+	}
+	var rec func(i int)
+	rec = func(i int) {
+		if want {
+			return
+		}
+		if i == n {
+			want = true
+			return
+		}
+		for j := i; j < n; j++ {
+			perm[i], perm[j] = perm[j], perm[i]
+			if within(a[i], b[perm[i]]) {
+				rec(i + 1)
+			}
+			perm[i], perm[j] = perm[j], perm[i]
+		}
+	}
+	rec(0)
+	build := func(ps []pt, kind int) geom.Geometry {
+		switch kind {
+		case 0:
+			fs := []float64{}
+			for _, p := range ps {
+				fs = append(fs, p.x, p.y)
+			}
+			return geom.NewMultiPointXY(fs...).AsGeometry()
+		case 1:
+			var ms []geom.Geometry
+			for _, p := range ps {
+				ms = append(ms, geom.NewPointXY(p.x, p.y).AsGeometry())
+			}
+			return geom.NewGeometryCollection(ms).AsGeometry()
+		default:
+			var ls []geom.LineString
+			for _, p := range ps {
+				ls = append(ls, geom.NewLineStringXY(p.x, p.y, p.x, p.y+20))
+			}
+			return geom.NewMultiLineString(ls).AsGeometry()
+		}
+	}
+	kind := r.Intn(3)
+	ga, gb := build(a, kind), build(b, kind)
+	k.In("a", ga.AsText())
+	k.In("b", gb.AsText())
+	k.In("tolerance", fmt.Sprint(tol))
+	k.Nontrivial(ga.AsText() + gb.AsText() + fmt.Sprint(tol))
+	var got, gotR bool
+	if k.Lib("nopanic", func() {
+		got = geom.ExactEquals(ga, gb, geom.IgnoreOrder, geom.ToleranceXY(tol))
+		gotR = geom.ExactEquals(gb, ga, geom.ToleranceXY(tol), geom.IgnoreOrder)
+	}) {
+		return
+	}
+	k.Check("tolerance", got == want && gotR == want, "ExactEquals(a,b,IgnoreOrder,ToleranceXY(%g)) = %v/%v, but a bijection within the tolerance exists=%v\n a=%s\n b=%s", tol, got, gotR, want, ga.AsText(), gb.AsText())
+}
+
 func runAll(c *run.Ctx) {
+	for i := 0; i < c.N(6000, 100000); i++ {
+		c.Case("tol-matching", i, tolMatching)
+	}
 	for i := 0; i < c.N(12000, 120000); i++ {
 		c.Case("family", i, one)
 	}
